@@ -25,6 +25,7 @@ def rand_req(rng, tag, allow_big=True):
     r = AReq(method=rng.choice(STD_METHODS + EXT_METHODS), target="/%s" % tag, version=rng.choice(["1.1", "1.1", "1.0"]),
              headers=random_headers(rng, 3), framing=fr, body=body,
              chunks=random_chunks(rng, size) if fr in ("chunked", "both") else None, chunk_style=rng.below(4))
+    r.te_first = rng.chance(1, 2)
     if rng.chance(1, 10):
         r.conn = rng.choice(["close", "keep-alive", "Keep-Alive", "CLOSE", "x, close", "upgrade", "foo"])
     if r.version == "1.0" and rng.chance(2, 3):
